@@ -34,6 +34,15 @@ def dd_kwargs(mode):
     return {}
 
 
+def shared_pairs():
+    """the new value holds one mutable object at several places, or an object that contains itself"""
+    L = [2, 3]; row = {'r': [1]}
+    inner = ['s']; val = {'p': inner, 'q': [inner, 0]}
+    C = [2]; C.append(C)
+    Dd = {'n': 1}; Dd['self'] = Dd
+    return [({'a': 1}, {'a': 1, 'x': L, 'y': L}), ([0], [0, row, row]), ({'a': 1}, {'a': 1, 'v': val}), ({'a': 1}, {'a': 1, 'c': C}), ([0], [0, Dd])]
+
+
 def special_pairs():
     D = decimal.Decimal
     return [
@@ -50,14 +59,37 @@ def special_pairs():
         ({'a': int}, {'a': str}),                                           # types as values
         ({'user__name': 'a', 'filters': {'owner__id__in': [1], 'x_': 2}, '_p__q': 1}, {'user__name': 'b', 'filters': {'owner__id__in': [1, 2], 'y__': 3}, '_p__q': 2}),   # underscores inside keys
         ({'limit': 10, 'tags': ['a'], 'n': None}, {'limit': None, 'tags': ['a', 'b'], 'n': 'None'}),      # None on either side of a type change
+        ([1.0, float('nan'), 2], [1.0, 2]), ({'k': [float('nan'), 'x']}, {'k': ['x']}), ([decimal.Decimal('NaN'), 5, 6], [5, 6, 7]),          # items that are not equal to themselves
+    ] + shared_pairs() + [
     ]
+
+
+def alias_sig(v):
+    """which places of a value hold one and the same container object (and where it contains itself): the object graph, not only the tree"""
+    seen, groups = {}, []
+
+    def walk(x, path):
+        if isinstance(x, (list, dict, set, tuple)):
+            if not isinstance(x, tuple):            # only mutable containers: deepcopy hands back the very same tuple when its items are immutable
+                if id(x) in seen:
+                    seen[id(x)].append(path); return
+                seen[id(x)] = [path]
+            kids = x.items() if isinstance(x, dict) else enumerate(x) if isinstance(x, (list, tuple)) else []
+            for k, y in kids:
+                walk(y, path + (repr(k),))
+    walk(v, ())
+    return sorted(ps for ps in seen.values() if len(ps) > 1)
+
+
+def tree_only(outs):
+    return [o[:2] for o in outs]
 
 
 def outcome(f):
     try:
         r = f()
         try:
-            return ('ok', pkl.symb(r))
+            return ('ok', pkl.symb(r), alias_sig(r))
         except Exception:
             return ('ok', repr(r))
     except Exception as e:
@@ -266,7 +298,11 @@ def run(ctx, impl_only=False):
         pairs.append(gflat.pair(3) if i % 4 == 0 else g.pair(3))
     compare_func_cases(ctx)
     rich_cases(ctx)
-    core.witnesses(ctx, ID, {'F44': f44_witness})
+    def f66_witness():
+        t1_ = [1.0, float('nan'), 2]
+        d_ = Delta(DeepDiff(t1_, [1.0, 2], ignore_order=True, report_repetition=True))
+        return repr(copy.deepcopy(t1_) + d_) == repr(copy.deepcopy(t1_) + Delta(d_.dumps()))
+    core.witnesses(ctx, ID, {'F44': f44_witness, 'F66': f66_witness})
     tmpdir = tempfile.mkdtemp(prefix='verif_c14_')
     journal = io.BytesIO()
     enc_lines, enc_meta, vm_lines, vm_meta = [], [], [], []
@@ -275,6 +311,8 @@ def run(ctx, impl_only=False):
             full = pi < len(special_pairs()) or ctx.thorough()
             for (mode, bidir, aiv, rerr) in ([c + (r_,) for c in cfgs() for r_ in (False, True)] if full else [ctx.rng.choice(cfgs()) + (ctx.rng.random() < 0.5,) for _ in range(3)]):
                 case = {'t1': repr(t1), 't2': repr(t2), 'mode': mode, 'bidirectional': bidir, 'always_include_values': aiv, 'raise_errors': rerr}
+                if mode == 'ignore_order' and 'nan' in repr(t1).lower():
+                    ctx.count('out_of_domain:nan_under_ignore_order'); continue        # finding F66: there an item is found by identity first
                 try:
                     diff = DeepDiff(t1, t2, **dd_kwargs(mode))
                     d = Delta(diff, bidirectional=bidir, always_include_values=aiv)
@@ -378,7 +416,7 @@ def run(ctx, impl_only=False):
                             outs = [outcome(lambda b_=b_: copy.deepcopy(b_) + mkj()) for b_ in bases]
                             if bidir:
                                 outs += [outcome(lambda b_=b_: copy.deepcopy(b_) - mkj()) for b_ in bases]
-                            if outs != ref_out:
+                            if tree_only(outs) != tree_only(ref_out):          # JSON is a tree format: shared sub-objects come back as copies
                                 ctx.violate(dict(case, channel='json'), 'JSON-reloaded delta behaves differently: %r vs %r' % (outs, ref_out))
                             # the same JSON text reloaded from a path and from a file object: the constructor's
                             # deserializer must reach every channel
@@ -399,7 +437,7 @@ def run(ctx, impl_only=False):
                                 outs = [outcome(lambda b_=b_: copy.deepcopy(b_) + mkx()) for b_ in bases]
                                 if bidir:
                                     outs += [outcome(lambda b_=b_: copy.deepcopy(b_) - mkx()) for b_ in bases]
-                                if outs != ref_out:
+                                if tree_only(outs) != tree_only(ref_out):
                                     ctx.violate(dict(case, channel=chj), 'JSON delta reloaded through %s behaves differently: %r vs %r' % (chj, outs, ref_out))
                                 ctx.count('channel:' + chj)
                         ctx.count('channel:json')
